@@ -224,10 +224,27 @@ def _raw_effects(p):
 def compare(program, live_fi, ref_fi, effects=default_effects, **kw):
     lk = dict(kw.get("live_kw") or {})
     rk = dict(kw.get("ref_kw") or {})
+    deep = os.environ.get("ZC_DEEP") == "1" and "loop_policy" not in lk \
+        and "loop_policy" not in rk
     lk.setdefault("loop_policy", A.carried_state_policy(live_fi.node))
     rk.setdefault("loop_policy", A.carried_state_policy(ref_fi.node))
     kw = dict(kw, live_kw=lk, ref_kw=rk)
-    r = _compare(program, live_fi, ref_fi, effects=effects, **kw)
+    r = None
+    if deep:
+        # thorough tier: every loop on two representative elements (also the
+        # ones whose iterations look independent), where the path count
+        # allows it
+        try:
+            kw2 = dict(kw, live_kw=dict(lk, loop_policy=lambda n: "twice"),
+                       ref_kw=dict(rk, loop_policy=lambda n: "twice"))
+            r = _compare(program, live_fi, ref_fi, effects=effects, **kw2)
+            r["deep"] = True
+            if r["verdict"] == "unanalysable":
+                r = None
+        except AnalysisError:
+            r = None
+    if r is None:
+        r = _compare(program, live_fi, ref_fi, effects=effects, **kw)
     if r.get("loops_live") != r.get("loops_ref"):
         # the two sides disagree on which loops carry state (one of them
         # keeps a candidate or a flag the other does not): run both with two
